@@ -159,7 +159,7 @@ def model_oracle(c, state):
     post = {}
     for tok in state.split():
         f = tok.split(":")
-        post[tuple(int(x) for x in f[0].split("/"))] = tok
+        post[tuple(int(x) if x.isdigit() else x for x in f[0].split("/"))] = tok
     clash = [p for p in dest if p in snap and dest[p]["k"] != snap[p]["k"]]
     linkdiff = [p for p in dest if p in snap and dest[p]["k"] == "l" == snap[p]["k"] and dest[p]["t"] != snap[p]["t"]]
     bad = []
@@ -179,7 +179,10 @@ def model_oracle(c, state):
         if delete and p in post: bad.append("extra %s kept although delete" % (p,))
         if not delete and post.get(p) != canon_entry(e): bad.append("extra %s changed without delete: %s" % (p, post.get(p)))
     for p in post:
-        if p not in snap and p not in dest: bad.append("unexpected entry %s" % (p,))
+        if p not in snap and p not in dest:
+            # a file created through a dangling destination symlink (clash class, no delete)
+            if not delete and clash and any(isinstance(x, str) for x in p): continue
+            bad.append("unexpected entry %s" % (p,))
     return bad, {"clash": bool(clash), "linkdiff": bool(linkdiff)}
 
 
@@ -262,7 +265,18 @@ def run(ctx):
             if not v["to_packs_ok"] or mreads != "reads_in_to_packs":
                 viol.append(("packs read while restoring are not among RestorePlan::to_packs", {"case": c["line"], "impl": v, "model": b}, "to-packs-misses-a-read"))
             if not lc:
-                same = (v["outcome"] == mout) and (v["outcome"] != "ok" or v["state"] == mstate)
+                # an entry kept where the snapshot has a symlink gets the symlink node's mtime (lutimes on
+                # whatever is there); symlink nodes carry no mtime in the model: blank that field
+                snapk = {"/".join(map(str, e["p"])): e["k"] for e in c["snap"]}
+                keptl = {"/".join(map(str, e["p"])) for e in c["dest"] if not c["o"][0] and e["k"] != "l" and snapk.get("/".join(map(str, e["p"]))) == "l"}
+                def blank(st):
+                    out = []
+                    for tok in st.split():
+                        f = tok.split(":")
+                        if f[0] in keptl and len(f) > 2: f[2] = "*"
+                        out.append(":".join(f))
+                    return " ".join(out)
+                same = (v["outcome"] == mout) and (v["outcome"] != "ok" or blank(v["state"]) == blank(mstate))
                 if not same:
                     mism.append({"case": c["line"], "impl": v["outcome"] + "|" + v["state"], "model": mout + "|" + mstate})
             if v["outcome"] == "ok":
